@@ -307,11 +307,21 @@ class Fixed(object):
 
 
 GFF_MERGE = ["c1\tsrc_b\tgene\t1\t100\t.\t+\t.\tID=g1;Note=n2", "c1\tsrc_a\tgene\t1\t100\t.\t+\t.\tID=g1;Note=n1",
-             "c1\tsrc_c\tgene\t1\t100\t.\t+\t.\tID=g1;Note=n3,n1", "c1\tsrc_a\tmRNA\t1\t100\t.\t+\t.\tID=m1;Parent=g1"]
+             "c1\tsrc_c\tgene\t1\t100\t.\t+\t.\tID=g1;Note=n3,n1", "c1\tsrc_a\tmRNA\t1\t100\t.\t+\t.\tID=m1;Parent=g1",
+             # a key whose second line has other coordinates (filed as g2_1) and whose third repeats the second: merged into g2_1
+             "c1\ts\tgene\t1\t100\t.\t+\t.\tID=g2;Note=a", "c1\ts\tgene\t5\t100\t.\t+\t.\tID=g2;Note=b",
+             "c1\ts\tgene\t5\t100\t.\t+\t.\tID=g2;Note=c", "c1\ts\tgene\t7\t100\t.\t+\t.\tID=g2;Note=d",
+             "c1\ts\tgene\t7\t100\t.\t+\t.\tID=g2;Note=e", "c1\ts\tgene\t5\t100\t.\t+\t.\tID=g2;Note=f"]
+GTF_MERGE = ['c1\ts\texon\t10\t20\t.\t+\t.\tgene_id "G"; transcript_id "t1"; exon_id "E1";',
+             'c1\ts\texon\t10\t20\t.\t+\t.\tgene_id "G"; transcript_id "t2"; exon_id "E1";',
+             'c1\ts\texon\t10\t20\t.\t+\t.\tgene_id "G"; transcript_id "t3"; exon_id "E1";',
+             'c1\ts\texon\t30\t40\t.\t+\t.\tgene_id "G"; transcript_id "t2"; exon_id "E2";',
+             'c1\ts\texon\t30\t40\t.\t+\t.\tgene_id "G"; transcript_id "t3"; exon_id "E2";']
 _DRIVER = """import sys
 sys.path.insert(0, sys.argv[1])
 import gffutils
-db = gffutils.create_db(sys.argv[2], sys.argv[3], merge_strategy="merge", force_merge_fields=["source"], verbose=False)
+kw = dict(force_merge_fields=["source"]) if sys.argv[4] == "gff" else dict(id_spec={"exon": "exon_id", "gene": "gene_id", "transcript": "transcript_id"})
+db = gffutils.create_db(sys.argv[2], sys.argv[3], merge_strategy="merge", verbose=False, **kw)
 db.conn.close()
 """
 
@@ -322,26 +332,27 @@ def run_hashseeds(ch, ctx):
     database. The job merges three duplicates with a force-merged column, i.e. it builds sets of strings."""
     import subprocess
     import sys
+    fmt = ch.choose("format", ("gff", "gtf"))
     wd = ctx.fresh_dir()
-    src = dbutil.write_text(wd, "merge.gff", "\n".join(GFF_MERGE) + "\n")
+    src = dbutil.write_text(wd, "merge.%s" % fmt, "\n".join(GFF_MERGE if fmt == "gff" else GTF_MERGE) + "\n")
     drv = dbutil.write_text(wd, "driver.py", _DRIVER)
     repo = os.path.dirname(os.path.dirname(os.path.abspath(gffutils.__file__)))
     seeds = ("0", "1", "2", "3", "17", "4711")
     got = {}
     for s in seeds:
         out = os.path.join(wd, "h%s.db" % s)
-        r = subprocess.run([sys.executable, drv, repo, src, out], env=dict(os.environ, PYTHONHASHSEED=s), capture_output=True, text=True, timeout=300)
+        r = subprocess.run([sys.executable, drv, repo, src, out, fmt], env=dict(os.environ, PYTHONHASHSEED=s), capture_output=True, text=True, timeout=300)
         if r.returncode != 0:
             ctx.fail("import-process-failed", dict(jobs="gffMERGE", hash_seed=True), seed=s, stderr=r.stderr[-400:])
             return
         got[s] = dbutil.canon(out, attr_sets=True)          # the order of merged attribute values is nobody's promise (C05 compares them as sets)
     ctx.nontrivial()
-    ctx.outcome(("hashseeds", len(seeds)))
+    ctx.outcome(("hashseeds", fmt, len(seeds)))
     ctx.sample(lambda: dict(job="gffMERGE", hash_seeds=list(seeds), stored=[r_[:3] for r_ in got["0"]["features"]]))
     ref = got[seeds[0]]
     for s in seeds[1:]:
         bad = [k for k in ref if ref[k] != got[s][k]]
-        ctx.check(not bad, "database-differs-between-interpreter-hash-seeds", dict(tables=",".join(bad)), seeds=[seeds[0], s],
+        ctx.check(not bad, "database-differs-between-interpreter-hash-seeds", dict(tables=",".join(bad), format=fmt), seeds=[seeds[0], s],
                   a=[r_[:3] for r_ in ref["features"]], b=[r_[:3] for r_ in got[s]["features"]])
 
 
